@@ -175,7 +175,18 @@ def gen_config(rng, sp, profile):
                 cli += ["--sort", SORT_NAMES[attr]]
     # runner-level options through the three channels
     ro = {}
-    if rng.random() < profile.get("p_runner_opts", 0.0):
+    # sometimes the runner sets exactly one option and nothing else (also an explicit `false`): "is anything set at run time?"
+    # short cuts must not mistake that for "nothing set"
+    single = None
+    if getattr(sp, "budget_scenario", False) and action == "bench" and rng.random() < 0.6:
+        single = "sk"
+    elif rng.random() < profile.get("p_single_runner_opt", 0.0):
+        single = rng.choice(["sc", "ss", "th", "c", "xt", "mt", "sk", "sk", "sk"] if profile.get("time_opts") else ["sc", "ss", "th", "c"])
+
+    def want(field, p):
+        return (single == field) if single else (rng.random() < p)
+
+    if single or rng.random() < profile.get("p_runner_opts", 0.0):
         def put(field, value, flag, envname, bop, render=str, only=None):
             ch = only or rng.choice(["cli", "env", "builder", "cli+env", "cli+builder", "env+builder"])
             it.how[field] = ch
@@ -197,11 +208,11 @@ def gen_config(rng, sp, profile):
                 env[envname] = v
                 builder.append([bop, other])
             ro[field] = value
-        if rng.random() < 0.5:
+        if want("sc", 0.5):
             put("sc", rng.choice([0, 1, 2, 3, 5, 8]), "--sample-count", "DIVAN_SAMPLE_COUNT", "sample_count")
-        if rng.random() < 0.5:
+        if want("ss", 0.5):
             put("ss", rng.choice([1, 2, 3, 4]), "--sample-size", "DIVAN_SAMPLE_SIZE", "sample_size")
-        if rng.random() < 0.4:
+        if want("th", 0.4):
             P = TG.PARALLELISM
             th = rng.choice([[1], [2], [1, 2], [0], [3, 1, 3], [2, 4], [0, P], [P, 2, 0], [0, 0, 1]])
             if rng.random() < 0.12:
@@ -209,11 +220,12 @@ def gen_config(rng, sp, profile):
                 put("th", [], "--threads", "DIVAN_THREADS", "threads", render=lambda v: ",".join(map(str, v)), only="builder")
             else:
                 put("th", th, "--threads", "DIVAN_THREADS", "threads", render=lambda v: ",".join(map(str, v)))
+        only_k = rng.randrange(4) if single == "c" else None
         for k in range(4):
-            if rng.random() < 0.2:
+            if (k == only_k) if single else (rng.random() < 0.2):
                 put("c%d" % k, rng.choice([0, 1, 9, 500, 65536]), "--" + COUNTER_FLAGS[k], COUNTER_ENV[k], COUNTER_BUILDER[k])
-        if profile.get("time_opts") and rng.random() < 0.5:
-            which = rng.randrange(3)
+        if profile.get("time_opts") and ((single in ("xt", "mt", "sk")) if single else (rng.random() < 0.5)):
+            which = {"xt": 0, "mt": 1, "sk": 2}[single] if single else rng.randrange(3)
             if which == 0:
                 ns = rng.choice([0, 200, 1000, 4000])
                 ch = rng.choice(["cli", "env", "builder"])
@@ -237,8 +249,8 @@ def gen_config(rng, sp, profile):
                 else:
                     env["DIVAN_MIN_TIME"] = "%.9f" % (ns / 1e9)
             else:
-                v = rng.choice([0, 1])
-                ch = rng.choice(["cli", "env", "builder", "cli-bare"])
+                v = rng.choice([0, 1]) if not single else rng.choice([0, 0, 1])
+                ch = rng.choice(["cli", "env", "builder", "cli-bare"] if not single else ["cli", "env", "builder"])
                 if ch == "cli-bare":
                     v = 1
                     cli += ["--skip-ext-time"]
